@@ -815,8 +815,8 @@ func genFramesRaw(r *Repo, l *Lean) {
 		if !ok || b.Op != token.GTR {
 			return
 		}
-		lim := cpText(b.Y)
-		if lim != "math.MaxUint8" && lim != "255" && lim != "0xff" && lim != "0xFF" {
+		// the bound is EVALUATED (math.MaxUint8, 255, 0xff, a named constant such as `1<<8 - 1`, ...)
+		if v, ok := cvNewEnv(r, "socket").eval(b.Y, 0, nil); !ok || v.isStr || v.i != 255 {
 			return
 		}
 		f := frField(fr.fd, b.X, 0)
@@ -914,58 +914,85 @@ func genFramesRaw(r *Repo, l *Lean) {
 				marks = append(marks, q+"read:"+frReadDst(c.Args[1]))
 			case cpLast(ch) == "Read" && len(c.Args) == 1:
 				marks = append(marks, q+"read:"+frReadDst(c.Args[0]))
+			default:
+				// a helper of rawProto (or a plain function of the package) that reads from the connection
+				// into a slice it was handed: the read is attributed to the call site, with the argument's
+				// shape (harmless seed C05-H2 extracted `readXferPipe(bb.B[:xferLen], m)`)
+				var h *ast.FuncDecl
+				if len(ch) >= 1 {
+					if h = p.Func("rawProto", cpLast(ch)); h == nil && len(ch) == 1 {
+						h = p.Func("", cpLast(ch))
+					}
+				}
+				if h != nil && h.Type.Params != nil {
+					i := 0
+					for _, fld := range h.Type.Params.List {
+						for _, nm := range fld.Names {
+							if i < len(c.Args) {
+								reads := false
+								ast.Inspect(h.Body, func(nd ast.Node) bool {
+									hc, ok := nd.(*ast.CallExpr)
+									if !ok {
+										return true
+									}
+									hch := cpChain(hc.Fun)
+									if (cpEq(hch, "io", "ReadFull") || cpEq(hch, "io", "ReadAtLeast")) && len(hc.Args) >= 2 && cpText(hc.Args[1]) == nm.Name {
+										reads = true
+									}
+									return true
+								})
+								if reads {
+									marks = append(marks, "?read:"+frReadDst(c.Args[i]))
+								}
+							}
+							i++
+						}
+					}
+				}
 			}
 		})
 		l.StrList("frames_raw_read_landmarks", "rawProto.readMessage: buffer sizing calls, reads from the connection and the checks between them (`?` = conditional)", marks)
 	}
+	// socket.minus EXECUTED on a grid of arguments (the interpreter of the Redial group): (a, b, refused, result)
 	mn := p.Func("", "minus")
-	guard := []string{}
-	if mn != nil && mn.Type.Params != nil {
-		ren := map[string]string{}
-		i := 0
-		for _, f := range mn.Type.Params.List {
-			for _, n := range f.Names {
-				ren[n.Name] = fmt.Sprintf("$%d", i)
-				i++
-			}
-		}
-		for name := range frLocals(mn) {
-			defs := cpDefs(mn.Body, name)
-			if len(defs) == 1 && defs[0] != nil {
-				if b, ok := defs[0].(*ast.BinaryExpr); ok && b.Op == token.SUB && ren[cpText(b.X)] == "$0" && ren[cpText(b.Y)] == "$1" {
-					ren[name] = "$d"
-				}
-			}
-		}
-		var txt func(e ast.Expr) string
-		txt = func(e ast.Expr) string {
-			switch y := e.(type) {
-			case *ast.Ident:
-				if r, ok := ren[y.Name]; ok {
-					return r
-				}
-				return y.Name
-			case *ast.BinaryExpr:
-				return txt(y.X) + " " + y.Op.String() + " " + txt(y.Y)
-			case *ast.ParenExpr:
-				return "(" + txt(y.X) + ")"
-			}
-			return cpText(e)
-		}
-		for _, s := range mn.Body.List {
-			if is, ok := s.(*ast.IfStmt); ok && is.Init == nil && cpReturns(is.Body.List) {
-				rs := is.Body.List[len(is.Body.List)-1].(*ast.ReturnStmt)
-				if len(rs.Results) == 2 && cpText(rs.Results[1]) != "nil" {
-					guard = append(guard, txt(is.Cond))
-				}
-			}
+	if mn == nil || mn.Type.Params == nil {
+		l.Missing("frames_raw_minus_table", "func minus(a, b) not found in package socket")
+		return
+	}
+	var pn []string
+	for _, f := range mn.Type.Params.List {
+		for _, n := range f.Names {
+			pn = append(pn, n.Name)
 		}
 	}
-	if len(guard) == 0 {
-		l.Missing("frames_raw_minus_guard", "func minus(a, b) with a refusing `if` not found in package socket")
-	} else {
-		l.StrList("frames_raw_minus_guard", "refusing conditions of socket.minus ($0, $1 = parameters, $d = $0 - $1)", guard)
+	if len(pn) != 2 {
+		l.Missing("frames_raw_minus_table", "func minus does not have two parameters")
+		return
 	}
+	mx := flNewPkg(p)
+	var mrows []string
+	for _, a := range []int64{0, 1, 4, 5, 300} {
+		for _, b := range []int64{-1, 0, 1, 4, 5, 6, 301} {
+			in := &rinterp{x: mx, fuel: redialFuel, fields: map[string]rval{}}
+			in.hook = func(in *rinterp, name string, recv *rval, args []rval) (rval, bool) {
+				if name == "New" || name == "Errorf" {
+					return rvE("minus-error"), true
+				}
+				return rval{}, false
+			}
+			va, vb := rvI(a), rvI(b)
+			fr := &rframe{vars: map[string]*rval{pn[0]: &va, pn[1]: &vb}}
+			ctl := in.execList(fr, mn.Body.List)
+			if in.stopped() || ctl.k != rcReturn || len(ctl.vals) != 2 || ctl.vals[0].k != rvInt {
+				l.Missing("frames_raw_minus_table", "socket.minus could not be executed: "+in.bad)
+				return
+			}
+			refused := ctl.vals[1].k != rvNil
+			mrows = append(mrows, "("+redialIntLean(a)+", "+redialIntLean(b)+", "+trBoolLean(refused)+", "+redialIntLean(ctl.vals[0].i)+")")
+		}
+	}
+	l.add("frames_raw_minus_table", "(a, b, refused, first result) of socket.minus executed for a in {0,1,4,5,300}, b in {-1,0,1,4,5,6,301}",
+		"List (Int × Int × Bool × Int)", "[\n  "+strings.Join(mrows, ",\n  ")+"]")
 }
 
 // frLitOrData: an integer literal is itself, every other expression is "data".
